@@ -88,6 +88,8 @@ def _io_path(path, dec):
         if len(d) == 1 and d[0]["op"] == "patch" and d[0]["kt"] == "s":
             keys = keys + [d[0]["key"]]
             break
+    if len(keys) >= 3 and keys[1] == "outputs" and "metadata" in keys[2:]:
+        return False          # /cells/*/outputs/*/metadata follows the metadata (= merge) strategy, not the output strategy
     return len(keys) >= 2 and keys[0] == "cells" and keys[1] in ("source", "outputs", "attachments")
 
 
